@@ -10,6 +10,7 @@ printed as text when they are valid keys, else as `#<hex>`.
   create <fs|mem|map> <rr>           one whole Create call                 -> ok <key> | err <code> | panic | stuck
   createw fs limit=<n> <rr>          Create while the staging file cannot grow beyond n bytes -> as create
   bigcreate <store> size= fail= code= seed= piece= key=   one large generated stream -> ok <key> | err <code>
+  handles2 a=<hex> cut=<k> b=<hex>   two NewFS handles on one directory, B's Create inside A's -> a=.. b=.. listing
   hashrd <rr>                        hashutil.HashReader                   -> ok <key> | err <code>
   spawn fs <rr>                      start a Create, run it to its first Read -> id=<i> ret=- objs=[..] tmp=[..]
   step fs <i>                        deliver creator i's next read result, run it to its next Read or return
@@ -171,6 +172,20 @@ def step (d0 : DS) (line : String) : DS × String :=
     -- the harness resets the stores around the op (the object is not entered into the state)
     match kv rest "fail", kvNat rest "code", kv rest "key" with
     | some f, some c, some k => (d, if f = "-1" then s!"ok {k}" else s!"err {c}")
+    | _, _, _ => (d, "bad-op")
+  | "handles2" :: rest =>
+    -- two store handles on one directory: creator A has written its first `cut` bytes when
+    -- creator B (other handle) runs a whole Create; then A finishes.  In the model both are
+    -- creators of the one directory state; the result does not depend on the handle.
+    match kvHex rest "a", kvNat rest "cut", kvHex rest "b" with
+    | some a, some cut, some b =>
+      let s0 : St := ⟨[], none, []⟩
+      let inB : List ReadRes := [⟨b, .none⟩, ⟨[], .eof⟩]
+      let inA : List ReadRes := [⟨a.take cut, .none⟩, ⟨a.drop cut, .none⟩, ⟨[], .eof⟩]
+      let sA := settle sha 8 (s0.spawn inA) 0
+      let sB := runCreate sha 8 (sA.spawn inB) 1
+      let sF := runCreate sha 8 sB 0
+      ({ d with fs := sF }, s!"a={fsCreateRes sF 0} b={fsCreateRes sF 1} {showListing sF}")
     | _, _, _ => (d, "bad-op")
   | ["hashrd", rr] =>
     -- hashutil.HashReader: the digest of a complete input, the input's error otherwise
